@@ -174,6 +174,19 @@ class World:
                 except Exception:  # noqa: BLE001 - a disturbance only; its own outcome is not judged here
                     pass
                 return Event(k, op, [])
+            if k == "foreign":
+                # synthesis is asked for a class that was handed to extract_grammar but is no symbol of
+                # the resulting grammar (not reachable from the start symbol): whatever the answer is,
+                # it is no business of the grammar under test
+                from geneticengine.representations.tree.treebased import random_node
+
+                outside = [c for c in self.mat.considered() if c not in self.grammar.all_nodes]
+                if outside:
+                    try:
+                        random_node(self.random, self.grammar, outside[op[1] % len(outside)], self.decider)
+                    except Exception:  # noqa: BLE001
+                        pass
+                return Event(k, op, [])
             if k == "inspect":
                 # the grammar is looked at (printed, summarised): no property forbids it, nothing may change
                 try:
@@ -191,6 +204,23 @@ class World:
             if not self.pool:
                 self.skipped += 1
                 return None
+            if k == "edge":
+                # a legal but unusual genotype: a copy of a pool genotype in which every third gene holds one of the
+                # extreme values a gene can take (0, 1, sys.maxsize - 1, sys.maxsize)
+                import copy as _c
+                import sys as _s
+
+                if self.rep_kind not in ("ge", "sge", "stack"):
+                    self.skipped += 1
+                    return None
+                v = [0, 0, 1, _s.maxsize - 1, _s.maxsize, 0][op[2] % 6]
+                g = _c.deepcopy(self.pool[self._idx(op[1])])
+                if isinstance(g.dna, dict):
+                    g.dna = {key: [v if (j + op[2]) % 3 == 0 else w for j, w in enumerate(genes)] for key, genes in g.dna.items()}
+                else:
+                    g.dna = [v if (j + op[2]) % 3 == 0 else w for j, w in enumerate(g.dna)]
+                self.pool.append(g)
+                return Event("create", op, [], [len(self.pool) - 1])
             if k == "mutate":
                 i = self._idx(op[1])
                 g = rep.mutate(self.random, self.pool[i])
@@ -307,7 +337,7 @@ class World:
 
 
 # ---- strategies -------------------------------------------------------------------------
-def ops_strategy(max_ops=10, with_search=False, with_burn=False, with_map=True, with_init=False, with_disturb=True):
+def ops_strategy(max_ops=10, with_search=False, with_burn=False, with_map=True, with_init=False, with_disturb=True, with_edge=False):
     idx = st.integers(0, 30)
     alts = [
         st.just(["create"]),
@@ -324,6 +354,10 @@ def ops_strategy(max_ops=10, with_search=False, with_burn=False, with_map=True, 
     if with_disturb:
         alts.append(st.just(["direct"]))
         alts.append(st.just(["inspect"]))
+        alts.append(st.builds(lambda i: ["foreign", i], st.integers(0, 8)))
+    if with_edge:
+        alts.append(st.builds(lambda i, v: ["edge", i, v], idx, st.integers(0, 11)))
+        alts.append(st.builds(lambda i, v: ["edge", i, v], idx, st.integers(0, 11)))
         alts.append(st.builds(lambda k, d, s, f: ["sibling", k, d, s, f], st.integers(0, 12), st.booleans(), st.one_of(st.none(), st.integers(0, 12)), st.booleans()))
     if with_search:
         alts.append(
@@ -359,6 +393,7 @@ def world_cases(
     with_burn=False,
     with_map=True,
     with_init=False,
+    with_edge=False,
 ):
     spec = draw(specs(flags or Flags()))
     return {
@@ -368,5 +403,5 @@ def world_cases(
         "depth_extra": draw(st.sampled_from(list(depth_extras))),
         "seed": draw(st.integers(0, 2**31)),
         "gene_length": draw(st.one_of(st.sampled_from([1, 2, 5, 16, 64, 256]), st.sampled_from([1, 2, 5, 16, 64, 256]), st.integers(1, 6000))),
-        "ops": draw(ops_strategy(max_ops, with_search, with_burn, with_map, with_init)),
+        "ops": draw(ops_strategy(max_ops, with_search, with_burn, with_map, with_init, with_edge=with_edge)),
     }
